@@ -669,6 +669,9 @@ func c20Trees(c *Ctx) []rnode {
 func init() {
 	register(&Check{ID: "C20", Engine: "B", Run: func(c *Ctx) {
 		installLockModel()
+		if msg := sameNamedTypes(); msg != "" {
+			c.Violation("same-named-types", "two distinct types that merely print the same name (function-local declarations), one an alias of Stack, one a plain value: "+msg, nil, 0)
+		}
 		trees := c20Trees(c)
 		modes := []int{0, 1, 2, 3}
 		if !c.Quick() {
